@@ -50,11 +50,13 @@ def compare_post(c, mv, k0, enc, where):
     return None, k
 
 
-def interp_refinement(ck, n):
+def interp_refinement(ck, n, pid="C05", calibs=None, book_only=False):
+    """one-step refinement of solver.interpolate_fwd; also used by the C04 check (pid="C04", book_only) for the reported scale"""
     cases = []
+    kw = {} if calibs is None else {"calibs": calibs}
     for _ in range(n):
         c = gen.gen_solver_case(ck.rng, ck.tier, strats=("filter", "fixedinterval", "fixedpoint"), qmax=3 if ck.tier == "quick" else 5,
-                                max_steps=3)
+                                max_steps=3, **kw)
         c["routine"] = "interp"
         grid = c["grid"]
         ia = []
@@ -75,17 +77,19 @@ def interp_refinement(ck, n):
                  sample={"interp": {k: jc[k] for k in ("kind", "q", "d", "strat", "calib", "grid", "interp_at")}},
                  i_kind=c["kind"], i_strat=c["strat"], i_calib=c["calib"])
         if "error" in r:
-            ck.report(f"C05.{c['kind']}.exception", f"implementation raised {r['error']}", {"case": jc, "impl": r})
+            ck.report(f"{pid}.{c['kind']}.exception", f"implementation raised {r['error']}", {"case": jc, "impl": r})
             continue
+        if c["calib"].startswith("dyn") and any(abs(x) < 1e-9 for st in r["states"][1:] for x in st["out"]):
+            continue   # degenerate dynamic scale (see spec_check)
         for j, (k, t) in enumerate(c["interp_at"]):
             emit.append(lambda c=c, a=r["states"][k], b=r["states"][k + 1], t=t:
                         f"interp_run {gen.coq_config(c)} {gen.coq_state(c, a)} {gen.coq_state(c, b)} {lib.qclit(t)}")
             meta.append((i, j))
     try:
-        mres, x = lib.dual_eval("C05i", HEADER, emit, sample=2, shard=25)
-        ck.hist["ocaml_vs_coq_crosscheck"] = x
+        mres, x = lib.dual_eval(pid + "i", HEADER, emit, sample=2, shard=25)
+        ck.hist["ocaml_vs_coq_crosscheck(interp)"] = x
     except RuntimeError as e:
-        ck.report("C05.model-eval", "model evaluation failed", {"err": str(e)[:1500], "broken": "Run/GenRun.v g_interp"}, nofail=True)
+        ck.report(f"{pid}.model-eval", "model evaluation failed", {"err": str(e)[:1500], "broken": "Run/GenRun.v g_interp"}, nofail=True)
         return
     skipped = 0
     for (i, j), v in zip(meta, mres):
@@ -98,15 +102,33 @@ def interp_refinement(ck, n):
         k, t = c["interp_at"][j]
         tk1 = float(c["grid"][k + 1])
         if not (abs(ip["times"][0] - float(t)) < 1e-12 and abs(ip["times"][1] - tk1) < 1e-12 and abs(ip["times"][2] - float(t)) < 1e-12):
-            ck.report(f"C05.{c['kind']}.{c['strat']}.interp.times", f"interpolation returns states at times {ip['times']}, expected t={float(t)}, t1={tk1}, t",
+            ck.report(f"{pid}.{c['kind']}.{c['strat']}.interp.times", f"interpolation returns states at times {ip['times']}, expected t={float(t)}, t1={tk1}, t",
                       {"case": gen.jsonable(c)})
             continue
         pos = 0
+        bad = False
         for name in ("interpolated", "step_from", "interp_from"):
             mism, pos = compare_post(c, mv, pos, ip[name], f"interpolate_fwd(t={float(t)}) {name}")
-            if mism:
-                ck.report(f"C05.{c['kind']}.{c['strat']}.interp.{name}", f"{c['kind']}/{c['strat']}/{c['calib']}: {mism}",
+            if mism and not book_only:
+                ck.report(f"{pid}.{c['kind']}.{c['strat']}.interp.{name}", f"{c['kind']}/{c['strat']}/{c['calib']}: {mism}",
                           {"case": gen.jsonable(c), "mismatch": mism, "k": k, "t": str(t)})
+                bad = True
+                break
+        if bad:
+            continue
+        # bookkeeping of the three returned states: reported output scale (model carries squares) and step counter
+        nsc = len(ip["book"][0]["out"])
+        for name, bk in zip(("interpolated", "step_from", "interp_from"), ip["book"]):
+            m_out2 = [float(x) for x in mv[pos:pos + nsc]]
+            m_nst = int(mv[pos + nsc])
+            pos += nsc + 1
+            i_out2 = [x * x for x in bk["out"]]
+            if any(abs(a - b) > 1e-9 * max(abs(a), abs(b)) + 1e-300 for a, b in zip(i_out2, m_out2)) or bk["nsteps"] != m_nst:
+                ck.report(f"{pid}.{c['kind']}.{c['strat']}.{c['calib']}.interp.reported-scale",
+                          f"{c['kind']}/{c['strat']}/{c['calib']}: interpolate_fwd(t={float(t)}) in the step ({float(c['grid'][k])}, {tk1}]: the {name} state reports "
+                          f"output_scale={bk['out']} num_steps={bk['nsteps']}; documented (scale of the step the marginal was computed with / carried state): "
+                          f"{[math.sqrt(x) for x in m_out2]} num_steps={m_nst}",
+                          {"case": gen.jsonable(c), "k": k, "t": str(t), "state": name, "impl": bk, "model_out2": m_out2, "model_nsteps": m_nst})
                 break
     ck.hist["interp_skipped(singular or timeout)"] = {"n": skipped}
 
@@ -217,6 +239,7 @@ def spec_check(ck, n):
     cases = spec_cases(ck, n)
     ires = lib.run_impl("solve_impl.py", {"cases": [gen.floatable(c) for c in cases]}, timeout=3000)["results"]
     emit, idx, nodes_of = [], [], {}
+    degenerate = 0
     for i, c in enumerate(cases):
         r = ires[i]
         jc = gen.jsonable(c)
@@ -226,6 +249,11 @@ def spec_check(ck, n):
                  s_kind=c["kind"], s_strat=c["strat"], s_calib=c["calib"], s_mode=sc["mode"], s_checkpoints=len(sc["save_at"]) - 1)
         if "error" in r:
             ck.report(f"C05.{c['kind']}.exception", f"implementation raised {r['error']}", {"case": jc, "impl": r})
+            continue
+        # dynamic calibration with an (essentially) zero local scale: the predicted covariance is singular, backward gains are 0/0
+        # and the "exact interpolation" is not defined (same exclusion as traj.check_trajectories)
+        if c["calib"].startswith("dyn") and any(abs(x) < 1e-9 for st in r["states"][1:] for x in st["out"]):
+            degenerate += 1
             continue
         _t, nodes = coq_spec_union(c, r)
         nodes_of[i] = nodes
@@ -270,6 +298,7 @@ def spec_check(ck, n):
                           {"case": gen.jsonable(c), "mismatch": bad, "time": str(tt)})
                 break
     ck.hist["spec_skipped(singular or timeout)"] = {"n": skipped}
+    ck.hist["spec_degenerate_dynamic_scale_skipped"] = {"n": degenerate}
 
 
 # ---------------------------------------------------------------- (3) checkpoint-set independence, (4) terminal values
